@@ -21,8 +21,12 @@ class Untranslatable(Exception):
     pass
 
 
+MODULE_FUNCS = {}     # file -> {name: FunctionDef} (module-level helpers, inlined when they are a single `return <expr>`)
+
+
 def parse_class(fname, cname):
     tree = ast.parse(open(os.path.join(SRC, fname)).read())
+    MODULE_FUNCS[fname] = {f.name: f for f in tree.body if isinstance(f, ast.FunctionDef)}
     for n in tree.body:
         if isinstance(n, ast.ClassDef) and n.name == cname:
             return {f.name: f for f in n.body if isinstance(f, ast.FunctionDef)}
@@ -73,6 +77,14 @@ class Tr:
     # -- attribute of `self`
     def self_attr(self, name, call=False):
         priv = self.private(name)
+        if priv is not None and call and ("__" + priv) in self.methods:
+            name, priv = "__" + priv, None          # a private helper method: translated like any other method of the class
+            if (self.c, name) not in RET:
+                # inline a single-return helper
+                body = [x for x in self.methods[name].body if not (isinstance(x, ast.Expr) and isinstance(x.value, ast.Constant))]
+                if len(body) == 1 and isinstance(body[0], ast.Return):
+                    return self.expr(body[0].value)
+                raise Untranslatable(f"helper {name}")
         if priv is not None:
             if priv in self.rec["fields"]:
                 return self.rec["fields"][priv]
@@ -137,6 +149,18 @@ class Tr:
                 if not e.args:
                     base, ty = self.expr(f.value)
                     return self.attr_of(base, ty, f.attr + "()")
+            if isinstance(f, ast.Name) and f.id in MODULE_FUNCS.get(self.rec["file"], {}) and not e.keywords:
+                fn = MODULE_FUNCS[self.rec["file"]][f.id]
+                body = [x for x in fn.body if not (isinstance(x, ast.Expr) and isinstance(x.value, ast.Constant))]
+                params = [a.arg for a in fn.args.args]
+                if len(body) == 1 and isinstance(body[0], ast.Return) and len(params) == len(e.args):
+                    saved = dict(self.locals)
+                    vals = [self.expr(a) for a in e.args]
+                    self.locals = dict(zip(params, vals))
+                    try:
+                        return self.expr(body[0].value)
+                    finally:
+                        self.locals = saved
             raise Untranslatable("call " + ast.unparse(e))
         if isinstance(e, ast.BinOp):
             a, ta = self.expr(e.left); b, tb = self.expr(e.right)
@@ -308,6 +332,18 @@ for c in RECORDS:
 # constructors: symbolic execution of `__init__` (if-conversion) giving the value of each private decimal field as a function of the
 # decimal arguments.  `raise` kills a path (the rejections are the parser model's business, C12); what is translated is the
 # *derivation of the values*.
+def _masks():
+    """decimal places of the quantisation masks, read from the source text of rp2_decimal.py (no import: the tree may be any tree)"""
+    import re
+    txt = open(os.path.join(SRC, "rp2_decimal.py")).read()
+    out = {}
+    for name in ("CRYPTO", "FIAT"):
+        m = re.search(name + r"_DECIMALS\s*(?::[^=]*)?=\s*(?:\w+\()?[\"']?(\d+)", txt)
+        if m: out[name + "_DECIMAL_MASK"] = int(m.group(1))
+    return out
+MASKS = _masks()
+
+
 class Init:
     def __init__(self, cname):
         self.c = cname
@@ -365,6 +401,11 @@ class Init:
             f = e.func
             if isinstance(f, ast.Attribute) and f.attr in ("type_check_positive_decimal", "type_check_decimal") and len(e.args) >= 2:
                 return self.dec(e.args[1], env, known)
+            if isinstance(f, ast.Attribute) and f.attr == "is_equal_within_precision" and len(e.args) == 3 and isinstance(e.args[2], ast.Name) \
+                    and e.args[2].id in MASKS:
+                # (first - second).quantize(mask) == ZERO, the `==` being RP2Decimal's 13-decimal comparison
+                a = self.dec(e.args[0], env, known); b = self.dec(e.args[1], env, known)
+                return (f"(eq13 (quant {MASKS[e.args[2].id]} (dsub {a[0]} {b[0]})) (0 : Rat))", "bool")
             if isinstance(f, ast.Name) and f.id == "isinstance" and len(e.args) == 2 and isinstance(e.args[0], ast.Name) \
                     and ast.unparse(e.args[1]) == "RP2Decimal" and e.args[0].id in known:
                 return ("true", "bool")
